@@ -188,7 +188,7 @@ def check_case(ctx, case):
             kw['method'] = 'migrad'
             kw['tol'] = 1e-10
         if case['correlated']:
-            kw['correlated_fit'] = True
+            kw['correlated_fit'] = [True, np.True_, 1, True][(case['seed'] // 7) % 4]      # python bool, numpy bool, int
         if case['num_grad']:
             kw['num_grad'] = True
         priors = {}
